@@ -176,6 +176,8 @@ def run(report):
         if klass_count["proved"] < 100:
             report.fault(f"vacuity: only {klass_count['proved']} functions proved")
     c02_vector.finish(report, vec_counters, full_run=not only)
+    from .. import c02_comment
+    c02_comment.run(report, only)
     report.extra.update({
         "modules": len(files),
         "modules_with_calculate_functions": len(tasks),
